@@ -84,6 +84,9 @@ def judge_log(ctx, log, res, spec, params, tag, corrupt=None):
     if res.timed_out:
         ctx.inconclusive("watchdog:walk")
         return
+    if res.rc == 127:                      # the dynamic loader failed: libsimgrid.so was being relinked by a concurrent build
+        ctx.inconclusive("loader")
+        return
     ctx.count("runs")
     if log.errors or not log.ended or log.malformed:
         ctx.count("runs.harness_error")
